@@ -89,6 +89,10 @@ def run_job(job, trace_on_fail=True):
     cmd = cbmc_cmd(job)
     r.cmd = ' '.join(cmd)
     t0 = time.time()
+    if getattr(job, 'split_first', False) and job.mode in ('SA', 'SAI'):
+        # one query per obligation from the start (spec option `split`): the conjunction of all obligations of this
+        # function is much harder for the solver than each obligation on its own formula slice
+        return split_run(job, r, env, t0)
     try:
         p = run_cmd(cmd, env, job.timeout)
         out = p.stdout.decode(errors='replace')
